@@ -47,7 +47,14 @@ ScnConvs == [k \in DOMAIN scn.convs |-> [in |-> scn.convs[k].in, out |-> scn.con
 SuppliedAll == Ran(scn.inputs)
 SuppliedFolded == Folded(scn.inputs)
 DerivMayS == Fix(AllConvs, MayMatch, SuppliedAll)          \* upper bound of what can be derived
-DerivMustS == Fix(ScnConvs, MustMatch, SuppliedFolded)     \* lower bound
+\* what a converter certainly offers: of several type-only results of ONE type only the last declared one (the results are
+\* mapped back by type alone, func.go:graph / outputValues) - the lower bound counts only those
+AdvSeq(o) == LET idx == {j \in DOMAIN o : o[j].name # "" \/ ~\E k \in DOMAIN o : k > j /\ o[k].name = "" /\ o[k].type = o[j].type}
+                 Pick[S \in SUBSET DOMAIN o] == IF S = {} THEN <<>>
+                                                  ELSE LET m == CHOOSE x \in S : \A y \in S : x <= y IN <<o[m]>> \o Pick[S \ {m}]
+             IN Pick[idx]
+ScnConvsAdv == [k \in DOMAIN scn.convs |-> [in |-> scn.convs[k].in, out |-> AdvSeq(scn.convs[k].out)]]
+DerivMustS == Fix(ScnConvsAdv, MustMatch, SuppliedFolded)     \* lower bound
 
 HasRet(p) == \E i \in DOMAIN rets : rets[i].phase = p
 Ret(p) == rets[CHOOSE i \in DOMAIN rets : rets[i].phase = p]
